@@ -42,6 +42,15 @@ Theorem C11_handle_subscribe_is_the_translated_source : forall e a i w ins,
   fold_left (run_sub_act e a i) acts (Some w) = Some (fst (inst_handle_subscribe e a i w)) /\ r = snd (inst_handle_subscribe e a i w).
 Proof. exact inst_handle_subscribe_is_the_translated_source. Qed.
 
+(* the announcer asks every announced instance and queues a Nack for the sender exactly when none of them took the entry: the
+   control flow translated from the source text of sd.py on every run *)
+Theorem C11_announcer_handle_subscribe_is_the_translated_source : forall e a w,
+  announcer_handle_subscribe e a w
+  = let r := fold_left (fun acc i => let '(w', m) := inst_handle_subscribe e a i (fst acc) in (w', snd acc || m)) (announcing w) (w, false) in
+    if gen_announcer_subscribe_nack (snd r) then send_subscribe_nack (from_subscribe_entry e) a (fst r) else fst r.
+Proof. exact announcer_handle_subscribe_is_the_translated_source. Qed.
+
+Print Assumptions C11_announcer_handle_subscribe_is_the_translated_source.
 Print Assumptions C11_ack_echoes.
 Print Assumptions C11_no_match_one_nack.
 Print Assumptions C11_matching_instance_answers_once.
